@@ -17,6 +17,7 @@ type MatchRequest struct {
 	final    bool
 	sort     bool
 	revision revision
+	seq      uint64
 }
 
 // Matcher is responsible for performing search
@@ -31,6 +32,7 @@ type Matcher struct {
 	slab           []*util.Slab
 	mergerCache    map[string]*Merger
 	revision       revision
+	reqSeq         uint64
 }
 
 const (
@@ -61,6 +63,7 @@ func (m *Matcher) Loop() {
 
 	for {
 		var request MatchRequest
+		found := false
 
 		stop := false
 		m.reqBox.Wait(func(events *util.Events) {
@@ -71,7 +74,12 @@ func (m *Matcher) Loop() {
 				}
 				switch val := val.(type) {
 				case MatchRequest:
-					request = val
+					// Both a retry and a reset request can be pending.
+					// Serve the most recent one.
+					if !found || val.seq > request.seq {
+						request = val
+						found = true
+					}
 				default:
 					panic(fmt.Sprintf("Unexpected type: %T", val))
 				}
@@ -249,7 +257,8 @@ func (m *Matcher) Reset(chunks []*Chunk, patternRunes []rune, cancel bool, final
 	} else {
 		event = reqRetry
 	}
-	m.reqBox.Set(event, MatchRequest{chunks, pattern, final, sort, revision})
+	m.reqSeq++
+	m.reqBox.Set(event, MatchRequest{chunks, pattern, final, sort, revision, m.reqSeq})
 }
 
 func (m *Matcher) Stop() {
